@@ -145,3 +145,28 @@ M('C06', 'c06-show-twice-direct', [(CTL, "        self.last_shown_timestamp = me
 V('C06', 'c06v-early-return', [(CTL, "        if self.current_connection is None or connection == self.current_connection:\n            if self.display_matcher.matches(message):\n                self._show_message(message)\n            if self.stop_matcher.matches(message):\n                self.out.show(color(alert_color, '    Stopped at ') + str(message).strip())\n                self.ui_state_listener.pause_requested()",
                                  "        if self.current_connection is not None and connection != self.current_connection:\n            return\n        if self.display_matcher.matches(message):\n            self._show_message(message)\n        if self.stop_matcher.matches(message):\n            self.out.show(color(alert_color, '    Stopped at ') + str(message).strip())\n            self.ui_state_listener.pause_requested()")])
 V('C06', 'c06v-hoisted-temp', [(CTL, "            if self.display_matcher.matches(message):\n                self._show_message(message)", "            visible = self.display_matcher.matches(message)\n            if visible:\n                self._show_message(message)")])
+
+# ---- C10 -----------------------------------------------------------------------------------------
+PLG = 'backends/gdb_plugin/plugin.py'
+TUI = 'frontends/tui/terminal_ui.py'
+PUSF = 'core/persistent_ui_state.py'
+M('C10', 'c10-stop-always-true', [(PLG, "        self.plugin.process_message(connection_id, message)\n        return self.plugin.paused()", "        self.plugin.process_message(connection_id, message)\n        return True")], 'C10.1')
+M('C10', 'c10-stop-before-process', [(PLG, "        self.plugin.process_message(connection_id, message)\n        return self.plugin.paused()", "        halted = self.plugin.paused()\n        self.plugin.process_message(connection_id, message)\n        return halted")], 'C10.1')
+M('C10', 'c10-no-flag-clear', [(PLG, "        if self.state.paused():\n            self.state.resume_requested()\n", "")], 'C10.2')
+M('C10', 'c10-break-ignores-selection', [(CTL, "            if self.stop_matcher.matches(message):\n                self.out.show(color(alert_color, '    Stopped at ')", "        if True:\n            if self.stop_matcher.matches(message):\n                self.out.show(color(alert_color, '    Stopped at ')")], 'C10.3')
+M('C10', 'c10-break-uses-filter', [(CTL, "            if self.stop_matcher.matches(message):", "            if self.display_matcher.matches(message):")], 'C10.3')
+M('C10', 'c10-break-needs-shown', [(CTL, "            if self.stop_matcher.matches(message):", "            if self.stop_matcher.matches(message) and self.display_matcher.matches(message):")], 'C10.3')
+M('C10', 'c10-filter-resumes', [(CTL, "            self.out.show('Only showing messages that match ' + str(self.display_matcher))", "            self.out.show('Only showing messages that match ' + str(self.display_matcher))\n            self.ui_state_listener.resume_requested()")], 'C10.5')
+M('C10', 'c10-continue-when-paused', [(PLG, "        elif not self.state.paused():\n            gdb.execute('continue')", "        else:\n            gdb.execute('continue')")], 'C10.4')
+M('C10', 'c10-quit-and-paused-swapped', [(PLG, "        if self.state.should_quit():\n            gdb.execute('quit')\n        elif not self.state.paused():", "        if not self.state.paused():\n            gdb.execute('quit')\n        elif self.state.should_quit():")], 'C10.4')
+M('C10', 'c10-no-pause-before-command', [(PLG, "        self.state.pause_requested()\n        self.command_sink.process_command(command)", "        self.command_sink.process_command(command)")], 'C10.4')
+M('C10', 'c10-pause-toggles', [(PUSF, "        self._paused = True\n", "        self._paused = not self._paused\n")], 'C10.6')
+M('C10', 'c10-quit-also-unpauses', [(PUSF, "        self._should_quit = True\n", "        self._should_quit = True\n        self._paused = False\n")], 'C10.6')
+M('C10', 'c10-loop-ignores-quit', [(TUI, "while self.state.paused() and not self.state.should_quit():", "while self.state.paused():")], 'C10.7')
+M('C10', 'c10-loop-or', [(TUI, "while self.state.paused() and not self.state.should_quit():", "while self.state.paused() or not self.state.should_quit():")], 'C10.7')
+M('C10', 'c10-resume-quits', [(CTL, "        logging.info('Resuming…')\n        self.ui_state_listener.resume_requested()", "        logging.info('Resuming…')\n        self.ui_state_listener.quit_requested()")], 'C10.5')
+M('C10', 'c10-stop-notice-pauses-not', [(CTL, "                self.ui_state_listener.pause_requested()\n", "                pass\n")], 'C10.3')
+M('C10', 'c10-state-not-subscribed', [(PUSF, "        state.add_ui_state_listener(self)\n", "")], 'C10.6')
+M('C10', 'c10-destroy-bp-halts', [(PLG, "        self.plugin.close_connection(connection_id)\n        return False", "        self.plugin.close_connection(connection_id)\n        return self.plugin.paused()")], 'C10.1')
+V('C10', 'c10v-invoke-nested', [(PLG, "        if self.state.should_quit():\n            gdb.execute('quit')\n        elif not self.state.paused():\n            gdb.execute('continue')", "        if not self.state.should_quit():\n            if not self.state.paused():\n                gdb.execute('continue')\n        else:\n            gdb.execute('quit')")])
+V('C10', 'c10v-stop-temp', [(PLG, "        self.plugin.process_message(connection_id, message)\n        return self.plugin.paused()", "        self.plugin.process_message(connection_id, message)\n        halted = self.plugin.paused()\n        return halted")])
